@@ -75,6 +75,8 @@ func VP_C05_Name() {
 	vpAssert(err == nil && len(txt) > 0 && txt[len(txt)-1] == ';', "written form ends with ';'")
 	var w vpBuf
 	vpAssert(nd.Write(&w) == nil && string(w.b) == string(txt), "Write writes what MarshalText returns")
+	(&Node{Name: "zz", Children: []*Node{{Name: "yy"}}}).MarshalText()
+	vpAssert(string(w.b) == string(txt), "bytes returned by MarshalText are not disturbed by a later MarshalText call")
 	got := vpCollect(vpOneShot(txt), 3)
 	vpAssert(len(got) == 1 && !got[0].err, "one tree is read back")
 	if len(got) == 1 && !got[0].err {
@@ -123,6 +125,9 @@ func VP_C05_Tree() {
 	txt, err := root.MarshalText()
 	vpAssert(err == nil && len(txt) > 0 && txt[len(txt)-1] == ';', "written form ends with ';'")
 	vpAssert(vpCondensed(txt), "no whitespace outside quoted names")
+	keep := string(txt)
+	(&Node{Name: "zz", Children: []*Node{{Name: "yy"}}}).MarshalText()
+	vpAssert(string(txt) == keep, "bytes returned by MarshalText are not disturbed by a later MarshalText call")
 	got := vpCollect(vpOneShot(txt), 3)
 	vpAssert(len(got) == 1 && !got[0].err, "one tree is read back")
 	if len(got) == 1 && !got[0].err {
